@@ -15,13 +15,15 @@ MANIFEST = dict(
          "immediately, every later change of a listened key answers the listener in the same step, a pending "
          "listener is answered at the first tick after its deadline, the two subscriber maps mirror each other, "
          "a change notifies exactly the subscribed clients.  Tied to the code by running a REAL started ConfigActor "
-         "(oneshot receivers, hook dumps of the listener/subscriber maps) on ALL interleavings of small per-client "
+         "(oneshot receivers, ConfigChangeNotifyRequest payloads arriving on real BiStreamConn streams, hook dumps of the "
+         "listener/subscriber maps) on ALL interleavings of small per-client "
          "scripts (<= 6 messages, 2 keys, 2 listeners) plus seeded random sequences, against the model and an "
          "independent python oracle.",
     note="Partial: the 500 ms hb timer is replaced by an explicit tick calling the unmodified "
          "ConfigListener::timeout (deadlines are either long past or days ahead, so the wall clock cannot decide a "
-         "case); gRPC stream delivery (BiStreamManage) is runtime and not observed, the model states the message "
-         "handed to it.  Routed temporary values (SetTmpValue) weaken the invariant to 'stale only while the value "
+         "case); subscriber notifications are observed on the receiving end of real BiStreamManage / BiStreamConn "
+         "actors (every client gets a connection whose stream ends in a channel read by the harness), the tonic/HTTP2 "
+         "transport below that is runtime.  Routed temporary values (SetTmpValue) weaken the invariant to 'stale only while the value "
          "is tmp'; the overtake schedule is a known finding shared with C09/C06.  Full-value import does not "
          "notify (outside the property's quantifier; shown as a refuted lemma).",
     technique="Rocq proof (invariant over all message sequences with ghost registrations) + exhaustive-interleaving correspondence",
@@ -32,7 +34,7 @@ K1 = ("d1", "g", "t")
 K2 = ("d2", "g", "")
 A, B = "alpha", "beta-β"
 MA, MB = cm.md5hex(A), cm.md5hex(B)
-FUT = None  # set per run: a deadline days ahead
+CLIENTS = ["c1", "c2", "c3"]   # every client has a gRPC connection (real BiStreamManage / BiStreamConn)
 PAST = [5, 9]
 
 
@@ -126,7 +128,7 @@ def resolve(seq, fut):
             ops.append(tuple(m))
     ops.append(("dump_listener",))
     ops.append(("dump_sub",))
-    return ops
+    return [("conn", c) for c in CLIENTS] + ops
 
 
 def gen_exhaustive(tier, fut):
@@ -142,7 +144,7 @@ def gen_exhaustive(tier, fut):
                     if len(w) + len(a) + len(b) + len(t) > 6:
                         continue
                     # quick tier: a fixed, evenly spread subset of the configurations (all their interleavings)
-                    if quick and (wi * 7 + ai * 5 + bi * 3 + ti) % 5 != 0:
+                    if quick and (wi * 7 + ai * 5 + bi * 3 + ti) % 7 != 0:
                         continue
                     for m in merges([w, a, b, t]):
                         cases.append({"class": "interleaving", "ops": resolve(m, fut), "abstract": m})
@@ -234,6 +236,17 @@ def oracle(case, outs, fut):
             new = cm.md5hex(op[2]) if n == "add" else ""
             old_seen = cur(k)
             real_change = (md5.get(k, "") != new)
+            # gRPC subscribers of k: a ConfigChangeNotifyRequest must reach each of them on a change
+            subscribed = sorted(c for c, ks in subs.items() if k in ks)
+            got = sorted(x[0] for x in o.get("ntf", []) if tuple(x[1]) == k)
+            other = [x for x in o.get("ntf", []) if tuple(x[1]) != k]
+            if other:
+                fails.append(("notify", "op %d %s of %r notified another key: %r" % (idx, n, k, other)))
+            if real_change or old_seen != new or n == "del":
+                if got != subscribed:
+                    fails.append(("notify", "op %d %s changed %r: subscribers %r, notified %r" % (idx, n, k, subscribed, got)))
+            elif not set(got) <= set(subscribed):
+                fails.append(("notify", "op %d %s of %r notified non-subscribers %r" % (idx, n, k, got)))
             if n == "add":
                 md5[k] = new
             else:
@@ -358,7 +371,7 @@ def run(chk, replay=None):
             for idx, (op, o, mv) in enumerate(zip(c["ops"], r["out"], v)):
                 m = cm.canon_model(mv, enc)
                 i = cm.canon_impl(op, o)
-                d = cm.same(op, m, i)
+                d = cm.same(op, m, i, conns=CLIENTS)
                 if d:
                     mism += 1
                     chk.violation("model != implementation at op %d %s: %s" % (idx, op[0], d[:300]),
@@ -372,7 +385,7 @@ def run(chk, replay=None):
     chk.cov["evaluations"] = n_eval
     chk.cov["distinct_nontrivial"] = len(nontrivial)
     chk.cov["rule"] = ("ALL interleavings of a writer script x two listener scripts x a tick/subscriber script with at most 6 messages "
-                       "over 2 keys (quick tier: every 5th configuration, all of its interleavings), plus seeded random sequences of "
+                       "over 2 keys (quick tier: every 7th configuration, all of its interleavings), plus seeded random sequences of "
                        "3..15 messages over 3 keys, 2 clients (with and without in-order routed temporary values), plus the two overtake "
                        "schedules. evaluations = message sequences judged; non-trivial = distinct abstract sequences.")
     chk.cov["samples"] = [_plain(cases[3]), _plain(cases[len(cases) // 2]), _plain(cases[-1])]
@@ -381,7 +394,7 @@ def run(chk, replay=None):
     chk.assumptions += ["logical clock: deadlines are either long past (5, 9 ms after the epoch) or >= 11 days ahead; "
                         "ticks call the unmodified ConfigListener::timeout with the real clock",
                         "at most 10000 deadline buckets are expired per tick (the code's take(10000)); stated in answered_by_timeout",
-                        "gRPC delivery of NotifyConfig is not observed (runtime)"]
+                        "gRPC delivery is observed up to the BiStreamConn sender channel; the tonic transport is runtime"]
 
 
 def _plain(c):
